@@ -388,3 +388,5 @@ def run(ctx):
     boundaries.check_calls(ctx, 'C19.RC', 'C19')
     from .. import boundaries as _b
     _b.check_predicates(ctx, 'C19.RP', 'C19')
+    from .. import boundaries as _b
+    _b.check_updates(ctx, 'C19.RU', 'C19')
